@@ -360,7 +360,11 @@ class TransferManager(BaseManager):
         try:
             await self.abort(transfer)
         except InvalidStateTransition:
-            pass
+            # A transfer that can no longer be aborted (complete, failed, ...)
+            # can still have a task, for example an attempt to queue the
+            # download remotely that was still pending when the peer started
+            # the transfer by itself
+            await asyncio.gather(*transfer.cancel_tasks(), return_exceptions=True)
         except Exception:
             logger.exception("error aborting transfer before removal : %s", transfer)
         finally:
